@@ -1569,6 +1569,16 @@ fn driver_run(ctx: &mut Ctx, spec: &CorpusSpec, built: &Built, searcher: &Search
             let s = sample[rng.usize_below(sample.len())];
             match rng.below(4) { 0 => s, 1 => f32::from_bits(s.to_bits().saturating_sub(1)), 2 => f32::from_bits(s.to_bits() + 1), _ => s * 0.5 }
         };
+        // block_wand_intersection filters candidates with `leader_score > threshold - Σ block_max`:
+        // the rounded subtraction can drop a document whose (exactly summed) score exceeds the
+        // threshold by an ulp (observed on the unchanged tree) — inside the property's "up to
+        // floating-point rounding of the sum". Conjunctions are therefore compared by tolerance.
+        if let Q::Inter(_) = &q {
+            if !sample.is_empty() {
+                driver_case_multi(ctx, spec, built, searcher, &q, pick(rng));
+            }
+            continue;
+        }
         let policy = match rng.below(5) { 0 => Policy::Const(pick(rng).to_bits()), 1 => Policy::Staircase, _ => Policy::KthBest(1 + rng.usize_below(30)) };
         let initial = match (&policy, rng.below(3)) { (Policy::Const(b), _) => f32::from_bits(*b), (_, 0) => pick(rng), _ => f32::MIN };
         driver_case(ctx, spec, built, searcher, &q, &policy, initial);
